@@ -198,7 +198,8 @@ def gen_ops(rng, world, n_ev, max_ops=25, allow_faults=True):
         elif pat == 'ege':
             ops += [op_eval(f), op_get(f), op_set(tgt), op_get(f), op_eval(f),
                     op_get(f)]
-    n = rng.choice([1, 2, 3, 4, 6, 8, 12, 18, 25])
+    n = rng.choice([1, 2, 3, 4, 6, 8, 12, 18, 25] +
+                   ([32, 40] if max_ops > 25 else []))
     while len(ops) < min(n, max_ops):
         r = rng.random()
         if r < 0.36:
@@ -286,7 +287,8 @@ def gen_case(seed, tier='quick'):
     if rng.random() < 0.25:
         worlds.add_env_cells(rng, world)
     n_ev = rng.choice([1, 1, 2, 3])
-    ops = gen_ops(rng, world, n_ev, allow_faults=faulty)
+    ops = gen_ops(rng, world, n_ev, allow_faults=faulty,
+                  max_ops=40 if tier == 'thorough' else 25)
     knobs = {'n_evaluators': n_ev,
              'max_empty': rng.choice([100, 100, 100, 1, 2, 5]),
              'fail_on': rng.choice([1, 2, 3]) if faulty else None,
